@@ -228,6 +228,14 @@ func Pick(q, th int) int {
 	return q
 }
 
+// MainWith is Main with clean-up functions that run before the process exits.
+func MainWith(m *testing.M, cleanups ...func()) {
+	exitHooks = append(exitHooks, cleanups...)
+	Main(m)
+}
+
+var exitHooks []func()
+
 // Main is called from every harness package's TestMain.
 func Main(m *testing.M) {
 	debug.SetMaxStack(96 << 20)
@@ -263,6 +271,9 @@ func Main(m *testing.M) {
 	if outFile != nil {
 		_ = outFile.Close()
 	}
+	for _, h := range exitHooks {
+		h()
+	}
 	os.Exit(code)
 }
 
@@ -277,6 +288,8 @@ type Opt struct {
 	HangIsViolation bool
 	// HangAfter is the per-case watchdog (default 60 s).
 	HangAfter time.Duration
+	// Abs, if > 0, is the absolute number of cases in this process (costly cases: whole packages).
+	Abs int
 }
 
 func baseChecks() int {
@@ -319,6 +332,9 @@ func Check(t *testing.T, name string, rule string, opt Opt, prop func(t *rapid.T
 	}
 	if checks < opt.MinChecks {
 		checks = opt.MinChecks
+	}
+	if opt.Abs > 0 {
+		checks = opt.Abs
 	}
 	if checks < 1 {
 		checks = 1
@@ -431,6 +447,9 @@ func watchdog(rec *Rec, after time.Duration, stop chan struct{}) {
 				o.HangIsViol = rec.hangIsViol
 				o.Seed = baseSeed()
 				emit(o)
+				for _, h := range exitHooks {
+					h()
+				}
 				os.Exit(3)
 			}
 		}
